@@ -46,8 +46,15 @@ CHECKS = {
              "library is driven through every ordered pair and seeded longer sequences of the selectable parameter sets, "
              "context switches with core_set and concurrent threads (MULTI=PTHREAD build), running after each selection a "
              "probe workload that consults every derived-constant group; trace/CtxTrace requires each probe to equal that "
-             "of a freshly initialised library (separate process) with the same last selection.",
-        ref="§4 C19, §4a-C",
+             "of a freshly initialised library (separate process) with the same last selection. The library as ONE machine "
+             "across its layers (model/RelicSys: integer, field-element and point slots, the selected parameter set, the "
+             "sticky code; a selection forgets field elements and points and everything afterwards is defined by the new "
+             "constants alone) is model-checked over F_11 (cross-layer frame condition, known points on the selected curve) "
+             "and call histories over numbered slots with selections changing in the MIDDLE of a history - every identifier "
+             "of the 256-bit build and directly installed tiny curves in the 8-bit build - are executed by harness/relic_vm2.c "
+             "and validated event by event with the raw projection of every slot of every type (trace/RelicSysTrace); the "
+             "constants reported at a selection must equal those a fresh process reports.",
+        ref="§4 C19, §4a-C, §7.8",
         note=_NOTE,
         technique="TLC model checking of the macro state machine + replay of all TLC-generated programs into the real macros + trace validation"),
     "C15": dict(
@@ -287,10 +294,20 @@ CHECKS = {
              "1024 bits; ep2_frb powers 1..3; ep2_mul_cof on curve points outside the subgroup, small-order points) on the BN_P256 and "
              "SM9_P256 twists (thorough: BLS12-381) is validated by TLC through the refinement mapping from raw Montgomery F_p2 coordinates "
              "+ tag: the abstract output must equal the CurveX-defined result, the Frobenius must equal [p^i mod r]Q on subgroup points, "
-             "the cofactor image must lie on the curve and be annihilated by r, inputs unchanged under every alias pattern.",
-        ref="§4 C11",
-        note=_NOTE + " Curves over cubic, quartic and octic extensions (ep3/ep4/ep8) and the slope variants ep2_add_slp_basic/ep2_dbl_slp_basic "
-             "are not driven; the four-dimensional GLS recoding is judged through the multiplication results only.",
+             "the cofactor image must lie on the curve and be annihilated by r, inputs unchanged under every alias pattern. "
+             "Twists over F_p3 and F_p4 (ep3_* / ep4_*, which exist only at the other pairing field sizes) are driven in builds with "
+             "FP_PRIME = 315 (BLS24-315; quick tier: a slice) and, thorough, FP_PRIME = 508 (KSS18-508) by one driver (drv_epn.c) against "
+             "model/EpNSpec = CurveX over the degree-3/4 tower the library reveals: group law in every coordinate system with all identity "
+             "forms and alias patterns, cmp / norm / norm_sim, every multiplication routine with the same scalar classes plus scalars "
+             "structured in the Frobenius basis, epN_frb = [p^i mod r] on subgroup points, epN_mul_cof into the order-r subgroup for "
+             "points decompressed from arbitrary x; MCCurveX4 checks the group axioms and the Frobenius characteristic equation on "
+             "curves over F_81 (thorough).",
+        ref="§4 C11, §7.8",
+        note=_NOTE + " BLS48-575 (twist over F_p8) and the 766-bit sets cannot be selected in the portable configuration of the unchanged tree "
+             "(curve setup throws ERR_NO_PRECI) and are reported as skipped; the further quartic / cubic sets (fp330, fp638, fp317, fp509) "
+             "are available through C11_EXT_SETS but not part of the registered thorough command; small-order point tokens are not generated "
+             "for the F_p3 / F_p4 curves; the slope variants ep2_add_slp_basic/ep2_dbl_slp_basic are not driven; the GLS recodings are judged "
+             "through the multiplication results only.",
         technique="TLC model checking of the F_p2 group law and of the twist endomorphism / cofactor formulas in tiny pairing-friendly worlds + TLC trace validation of recorded ep2 calls"),
     "C12": dict(
         text="Validity is specified by definition: x is not the identity, lies on the curve (lib/Curve, lib/CurveX) resp. satisfies x^r = 1 in "
